@@ -14,7 +14,7 @@ package main
 //   After every token the driver waits until every goroutine of the adapter is parked.
 //   A token whose precondition does not hold (no such pending call) answers "n".
 //   Result: <answers> ; dials=<n> open=<open carriers> max=<max simultaneously open>
-//           closes=<Close() calls per carrier> left=<adapter goroutines still alive>
+//           closes=<Close() calls per carrier> dialing=<a dialContext call is pending> left=<adapter goroutines still alive>
 
 import (
 	"context"
@@ -29,6 +29,7 @@ import (
 )
 
 const redialMarker = "turbotunnel.(*RedialPacketConn)"
+const redialMarker2 = "turbotunnel.NewRedialPacketConn"
 
 var errFake = errors.New("scripted carrier failure")
 var errFakeClosed = errors.New("carrier closed")
@@ -171,7 +172,7 @@ func parked(st string) bool {
 func settle() (int, bool) {
 	deadline := time.Now().Add(20 * time.Second)
 	for i := 0; ; i++ {
-		sts := goroutineStates(redialMarker)
+		sts := goroutineStates(redialMarker, redialMarker2)
 		all := true
 		for _, s := range sts {
 			if !parked(s) {
@@ -332,7 +333,7 @@ func runRedial(args []string) string {
 		}
 	}
 	res := wirePrint(out) + ";dials=" + strconv.Itoa(sc.dials) + " open=" + wirePrintSemi(open) + " max=" + strconv.Itoa(sc.maxOpen) +
-		" closes=" + wirePrintSemi(closes) + " left=" + strconv.Itoa(n-base)
+		" closes=" + wirePrintSemi(closes) + " dialing=" + b01(sc.dialPending) + " left=" + strconv.Itoa(n-base)
 	sc.mu.Unlock()
 
 	// clean up so that goroutines of this case do not pile up (whatever cannot terminate stays)
@@ -350,6 +351,13 @@ func runRedial(args []string) string {
 	}
 	settle()
 	return res
+}
+
+func b01(b bool) string {
+	if b {
+		return "1"
+	}
+	return "0"
 }
 
 func wirePrint(l []string) string {
